@@ -245,6 +245,7 @@ class Path:
         self.loop_end = None
         self.loop_start_id = None
         self.loop_end_id = None
+        self.return_states = {}
 
 
 _PURE_BUILTINS = {'list', 'zip', 'tuple', 'set', 'sorted', 'enumerate', 'sum', 'str', 'int', 'float', 'max', 'min', 'abs', 'any', 'all', 'dict', 'repr',
@@ -666,7 +667,10 @@ class Frame:
                 self.env[a.asname or a.name] = self.I.module_global(lib.mod, a.name)
 
     def x_Return(self, s):
-        raise _Return(self.eval(s.value) if s.value is not None else None)
+        v = self.eval(s.value) if s.value is not None else None
+        # locals and fields at the return statement, per function (for exit-state obligations of contracts)
+        self.I.path.return_states[self.qualname] = self._state_snapshot()
+        raise _Return(v)
 
     def x_Break(self, s):
         raise _Break()
@@ -1014,6 +1018,8 @@ class Frame:
                 out[k] = z3.BoolVal(v)
             elif isinstance(v, int):
                 out[k] = z3.IntVal(v)
+            elif isinstance(v, float):
+                out[k] = z3.RealVal(repr(v))
             elif isinstance(v, SArr):
                 out[k] = (v.a, v.n)
             elif isinstance(v, Obj):
@@ -1023,6 +1029,12 @@ class Frame:
                         out[f'{k}.{fk}'] = fv.t
                     elif isinstance(fv, SArr):
                         out[f'{k}.{fk}'] = (fv.a, fv.n)
+                    elif isinstance(fv, bool):
+                        out[f'{k}.{fk}'] = z3.BoolVal(fv)
+                    elif isinstance(fv, int):
+                        out[f'{k}.{fk}'] = z3.IntVal(fv)
+                    elif isinstance(fv, float):
+                        out[f'{k}.{fk}'] = z3.RealVal(repr(fv))
         return out
 
     def _loop(self, s, kind, iterable=None):
